@@ -82,12 +82,20 @@ def const_value(node: ast.AST):
     raise ValueError("not a constant")
 
 
-def is_const(node: ast.AST, value=None) -> bool:
+_ANY = object()
+
+
+def is_const(node: ast.AST, value=_ANY) -> bool:
+    """Is ``node`` a constant (equal to ``value`` when given; ``None`` means the None constant)?"""
     try:
         val = const_value(node)
     except ValueError:
         return False
-    return value is None or (val == value and type(val) is type(value))
+    if value is _ANY:
+        return True
+    if value is None:
+        return val is None
+    return val == value and type(val) is type(value)
 
 
 # --------------------------------------------------------------------------- model
@@ -426,6 +434,28 @@ class Repo:
             return r
         return None
 
+    def param_class(self, fi: FuncInfo, name: str) -> Optional[str]:
+        """In-repo class named by the annotation of parameter ``name`` (of fi or an enclosing function)."""
+        cur: Optional[FuncInfo] = fi
+        while cur is not None:
+            ann = cur.annotation(name)
+            if ann is not None:
+                if isinstance(ann, ast.Constant) and isinstance(ann.value, str):
+                    txt = ann.value
+                else:
+                    txt = unparse(ann)
+                txt = txt.strip("'\"")
+                if txt.startswith("Optional[") and txt.endswith("]"):
+                    txt = txt[len("Optional["):-1].strip("'\"")
+                base = txt.split(".")[-1]
+                if base in self.classes:
+                    return base
+                return None
+            if name in cur.params or name == cur.vararg:
+                return None
+            cur = cur.parent
+        return None
+
     def resolve_call(self, fi: FuncInfo, call: ast.Call) -> Tuple[List[FuncInfo], bool]:
         """Return (candidate callees, exact?).  Unknown receivers are resolved by
         method name over the in-repo class table and flagged inexact ("dynamic")."""
@@ -477,6 +507,16 @@ class Repo:
                     return [m], True
             return [], True
         if len(recv) == 1:
+            typed = self.param_class(fi, recv[0])
+            if typed is not None:
+                m = self.method(typed, meth)
+                if m is not None:
+                    cands = [m]
+                    for sub in self.subclasses(typed, strict=True):
+                        m2 = self.method(sub.name, meth)
+                        if m2 is not None and m2 not in cands:
+                            cands.append(m2)
+                    return cands, True
             r = self.resolve_name(mod, recv[0])
             if isinstance(r, ClassInfo):
                 m = self.method(r.name, meth)
